@@ -332,7 +332,7 @@ func (fx *fctx) copyCells(st *State, elemT types.Type, dst, src, n, cond *Term) 
 		i := ts.BoundVar("ci", SInt)
 		inDst := ts.And(ts.Le(dst, i), ts.Lt(i, ts.Add(dst, n)))
 		body := ts.Eq(ts.Select(nw, i), ts.Ite(ts.And(cond, inDst), ts.Select(old, ts.Add(src, ts.Sub(i, dst))), ts.Select(old, i)))
-		st.assume(ts.Forall([]*Term{i}, body))
+		st.assume(ts.Forall([]*Term{i}, ts.WithPatterns(body, []*Term{ts.Select(nw, i)})))
 		st.heap[k.Key] = nw
 	}
 }
@@ -360,7 +360,7 @@ func (fx *fctx) zeroCells(st *State, elemT types.Type, addr, n *Term) {
 			nw := ts.Fresh("H."+key, ArrSort(s))
 			i := ts.BoundVar("zi", SInt)
 			in := ts.And(ts.Le(addr, i), ts.Lt(i, ts.Add(addr, n)))
-			st.assume(ts.Forall([]*Term{i}, ts.Eq(ts.Select(nw, i), ts.Ite(in, zv.Tm, ts.Select(old, i)))))
+			st.assume(ts.Forall([]*Term{i}, ts.WithPatterns(ts.Eq(ts.Select(nw, i), ts.Ite(in, zv.Tm, ts.Select(old, i))), []*Term{ts.Select(nw, i)})))
 			st.heap[key] = nw
 		case kSlice:
 			if key == "" {
@@ -371,7 +371,7 @@ func (fx *fctx) zeroCells(st *State, elemT types.Type, addr, n *Term) {
 				nw := ts.Fresh("H."+key+suf, ArrSort(SInt))
 				i := ts.BoundVar("zi", SInt)
 				in := ts.And(ts.Le(addr, i), ts.Lt(i, ts.Add(addr, n)))
-				st.assume(ts.Forall([]*Term{i}, ts.Eq(ts.Select(nw, i), ts.Ite(in, ts.Int(0), ts.Select(old, i)))))
+				st.assume(ts.Forall([]*Term{i}, ts.WithPatterns(ts.Eq(ts.Select(nw, i), ts.Ite(in, ts.Int(0), ts.Select(old, i))), []*Term{ts.Select(nw, i)})))
 				st.heap[key+suf] = nw
 			}
 		case kStruct:
@@ -423,6 +423,22 @@ func (fx *fctx) callStatic(st *State, fn *types.Func, recvExpr ast.Expr, sel *ty
 	}
 	args := fx.evalArgs(st, ce, fi.Decl.Type, sig)
 	con := e.P.CF.Contracts[fi.Key]
+	if con != nil && strings.HasPrefix(fi.Decl.Name.Name, "lemma") {
+		// lemma function: its contract is proved once (empty body); a call asserts the hypotheses and
+		// assumes the conclusion, also from ghost code
+		saved := fx.spec
+		fx.spec = false
+		for i, a := range args {
+			if a.Tm != nil && a.Tm.Sort == SInt {
+				if lo, hi, ok := intRange(sig.Params().At(i).Type()); ok {
+					fx.assert(st, "lemma-arg-range", fi.Key, e.ts.And(e.ts.Le(e.ts.IntBig(lo), a.Tm), e.ts.Le(a.Tm, e.ts.IntBig(hi))), ce, nil, "lemma argument fits its parameter type")
+				}
+			}
+		}
+		r := fx.callContract(st, fi, con, recv, args, ce)
+		fx.spec = saved
+		return r
+	}
 	if fx.spec || (con != nil && con.Inline) || (con == nil && fi.File == ContractsFileName) {
 		return fx.inlineBody(st, fi.Decl.Type, fi.Decl.Body, sig, fi.Decl.Recv, recv, args, ce)
 	}
@@ -794,6 +810,11 @@ func (fx *fctx) evalClauseValue(st *State, old *State, cl *Clause, bind map[stri
 		}
 		if b, ok := bind[v.Name()]; ok && b != nil {
 			s2.vars[v] = b
+		} else {
+			// not bound at this program point (e.g. a local declared later): arbitrary
+			q := s2.clone()
+			q.quiet = true
+			s2.vars[v] = e.havocValue(q, v.Type(), "unbound."+v.Name())
 		}
 	}
 	savedSpec, savedOld := fx.spec, fx.oldState
@@ -893,7 +914,25 @@ func (fx *fctx) intrinsic(st *State, name string, ce *ast.CallExpr) ([]*Value, b
 		n := fx.evalInt(st, ce.Args[1])
 		el := s.T.Underlying().(*types.Slice).Elem()
 		h := e.heapGet(st, e.elemKey(el), ArrSort(SInt))
-		return []*Value{{T: t, Tm: ts.App("psum", SInt, h, s.Sl.Ptr, n)}}, true
+		return []*Value{{T: t, Tm: e.psumTerm(h, s.Sl.Ptr, n)}}, true
+	case "rngSame":
+		if fx.oldState == nil {
+			e.unsup(ce, "rngSame outside two-state clause")
+		}
+		return []*Value{{T: t, Tm: ts.Eq(e.heapGet(st, "rng.pos", ArrSort(SInt)), e.heapGet(fx.oldState, "rng.pos", ArrSort(SInt)))}}, true
+	case "isFresh":
+		// isFresh(x): slice or pointer x is nil or was allocated after function entry
+		v := fx.eval(st, ce.Args[0])
+		if fx.entry == nil {
+			e.unsup(ce, "isFresh without entry state")
+		}
+		var p *Term
+		if v.Sl != nil {
+			p = v.Sl.Ptr
+		} else {
+			p = v.Tm
+		}
+		return []*Value{{T: t, Tm: ts.Or(ts.Eq(p, ts.Int(0)), ts.Ge(p, fx.entry.alloc))}}, true
 	case "allocated":
 		p := fx.eval(st, ce.Args[0])
 		return []*Value{{T: t, Tm: ts.And(ts.Gt(p.Tm, ts.Int(0)), ts.Lt(p.Tm, st.alloc))}}, true
